@@ -414,50 +414,7 @@ func (e *Exec) autoForInvariant(st *State, x *ast.ForStmt) func(*State) *Term {
 	// fill loop `for i := A; i < N; i++ { X[i] = C }` (X a slice variable and C a constant or variable the
 	// loop does not assign): after any number of iterations X holds C on [A, i) and its entry content
 	// elsewhere. The loop needs no written invariant (e.g. when a refactoring moved it into a helper).
-	var fill func(s *State, cur *Term) *Term
-	if len(x.Body.List) == 1 {
-		if as, ok := x.Body.List[0].(*ast.AssignStmt); ok && as.Tok == token.ASSIGN && len(as.Lhs) == 1 && len(as.Rhs) == 1 {
-			if ix, ok := as.Lhs[0].(*ast.IndexExpr); ok {
-				xid, ok1 := ast.Unparen(ix.X).(*ast.Ident)
-				iid, ok2 := ast.Unparen(ix.Index).(*ast.Ident)
-				if ok1 && ok2 && e.info().Uses[iid] == obj {
-					if xv, ok := e.info().Uses[xid].(*types.Var); ok && xv.Parent() != xv.Pkg().Scope() && !e.assignedIn(x, xv) {
-						if sl, ok := xv.Type().Underlying().(*types.Slice); ok && reprOf(sl.Elem()) == rInt {
-							constRHS := false
-							switch r := ast.Unparen(as.Rhs[0]).(type) {
-							case *ast.BasicLit:
-								constRHS = true
-							case *ast.Ident:
-								if rv, ok := e.info().Uses[r].(*types.Var); ok && rv.Parent() != rv.Pkg().Scope() && !e.assignedIn(x, rv) && rv != obj {
-									constRHS = true
-								}
-								if _, ok := e.info().Uses[r].(*types.Const); ok {
-									constRHS = true
-								}
-							}
-							if xc, ok := e.cells[xv]; ok && constRHS {
-								if sv, ok := st.store[xc].(SliceVal); ok {
-									key := memFamily(sl.Elem())
-									preInner := mkSelect(st.memMap(key, SInt), sv.Arr)
-									rhs := as.Rhs[0]
-									fill = func(s *State, cur *Term) *Term {
-										saved := s.quiet
-										s.quiet++
-										cv := asTerm(e.convertAssign(s, e.eval(s, rhs), sl.Elem()))
-										s.quiet = saved
-										k := mkVar("k!fill", SInt)
-										now := mkSelect(s.memMap(key, SInt), sv.Arr)
-										in := mkAnd(mkLe(mkAdd(sv.Off, init), k), mkLt(k, mkAdd(sv.Off, cur)))
-										return mkForall([]*Term{k}, mkEq(mkSelect(now, k), mkIte(in, cv, mkSelect(preInner, k))), mkSelect(now, k))
-									}
-								}
-							}
-						}
-					}
-				}
-			}
-		}
-	}
+	fill := e.fillSummary(st, x.Body, obj, func(v *types.Var) bool { return e.assignedIn(x, v) }, init)
 	return func(s *State) *Term {
 		cur := asTerm(s.store[cell])
 		inv := mkGe(cur, init)
@@ -487,8 +444,105 @@ func (e *Exec) autoForInvariant(st *State, x *ast.ForStmt) func(*State) *Term {
 	}
 }
 
+// fillSummary recognises a loop body that is the single statement `X[i] = C` (i the loop's counter, X a slice
+// variable or the slice a pointer variable points to, neither assigned by the loop, C a constant or a variable the
+// loop does not assign) and returns its exact summary: after any number of iterations X holds C on [from, i) and
+// its entry content elsewhere. Such a loop needs no written invariant, in whichever form it is spelled
+// (`for i := A; i < N; i++`, `for i := range X`) and wherever a refactoring moved it.
+func (e *Exec) fillSummary(st *State, body *ast.BlockStmt, idx types.Object, assigned func(*types.Var) bool, from *Term) func(s *State, cur *Term) *Term {
+	if body == nil || len(body.List) != 1 {
+		return nil
+	}
+	as, ok := body.List[0].(*ast.AssignStmt)
+	if !ok || as.Tok != token.ASSIGN || len(as.Lhs) != 1 || len(as.Rhs) != 1 {
+		return nil
+	}
+	ix, ok := as.Lhs[0].(*ast.IndexExpr)
+	if !ok {
+		return nil
+	}
+	iid, ok := ast.Unparen(ix.Index).(*ast.Ident)
+	if !ok || e.info().Uses[iid] != idx {
+		return nil
+	}
+	localVar := func(x ast.Expr) *types.Var {
+		id, ok := ast.Unparen(x).(*ast.Ident)
+		if !ok {
+			return nil
+		}
+		v, ok := e.info().Uses[id].(*types.Var)
+		if !ok || v.IsField() || v.Parent() == v.Pkg().Scope() || assigned(v) {
+			return nil
+		}
+		return v
+	}
+	base := ast.Unparen(ix.X)
+	var sliceT types.Type
+	if v := localVar(base); v != nil {
+		sliceT = v.Type()
+	} else if st, ok := base.(*ast.StarExpr); ok && localVar(st.X) != nil {
+		sliceT = e.info().TypeOf(base)
+	} else {
+		return nil
+	}
+	sl, ok := sliceT.Underlying().(*types.Slice)
+	if !ok || reprOf(sl.Elem()) != rInt {
+		return nil
+	}
+	constRHS := false
+	switch r := ast.Unparen(as.Rhs[0]).(type) {
+	case *ast.BasicLit:
+		constRHS = true
+	case *ast.Ident:
+		if rv, ok := e.info().Uses[r].(*types.Var); ok && !rv.IsField() && rv.Parent() != rv.Pkg().Scope() && !assigned(rv) && rv != idx {
+			constRHS = true
+		}
+		if _, ok := e.info().Uses[r].(*types.Const); ok {
+			constRHS = true
+		}
+	}
+	if !constRHS {
+		return nil
+	}
+	var sv SliceVal
+	func() {
+		defer func() {
+			if r := recover(); r != nil {
+				ok = false
+			}
+		}()
+		tmp := st.clone()
+		tmp.quiet++
+		sv, ok = toSlice(e.eval(tmp, base))
+	}()
+	if !ok {
+		return nil
+	}
+	key := memFamily(sl.Elem())
+	preInner := mkSelect(st.memMap(key, SInt), sv.Arr)
+	rhs := as.Rhs[0]
+	return func(s *State, cur *Term) *Term {
+		saved := s.quiet
+		s.quiet++
+		cv := asTerm(e.convertAssign(s, e.eval(s, rhs), sl.Elem()))
+		s.quiet = saved
+		k := mkVar("k!fill", SInt)
+		now := mkSelect(s.memMap(key, SInt), sv.Arr)
+		in := mkAnd(mkLe(mkAdd(sv.Off, from), k), mkLt(k, mkAdd(sv.Off, cur)))
+		return mkForall([]*Term{k}, mkEq(mkSelect(now, k), mkIte(in, cv, mkSelect(preInner, k))), mkSelect(now, k))
+	}
+}
+
 // assignedIn: the loop (body or post statement) assigns v or takes its address.
 func (e *Exec) assignedIn(x *ast.ForStmt, v *types.Var) bool {
+	if e.assignedInNode(x.Body, v) {
+		return true
+	}
+	return x.Post != nil && e.assignedInNode(x.Post, v)
+}
+
+// assignedInNode: some statement under n assigns v or takes its address.
+func (e *Exec) assignedInNode(n ast.Node, v *types.Var) bool {
 	found := false
 	check := func(n ast.Node) bool {
 		switch a := n.(type) {
@@ -517,10 +571,7 @@ func (e *Exec) assignedIn(x *ast.ForStmt, v *types.Var) bool {
 		}
 		return true
 	}
-	ast.Inspect(x.Body, check)
-	if x.Post != nil {
-		ast.Inspect(x.Post, check)
-	}
+	ast.Inspect(n, check)
 	return found
 }
 
@@ -612,9 +663,19 @@ func (e *Exec) execRange(st *State, x *ast.RangeStmt, label string) []Outcome {
 			s.store[idx] = Scalar{mkAdd(asTerm(s.store[idx]), tOne), intT}
 			return []*State{s}
 		}
+		var rfill func(s *State, cur *Term) *Term
+		if kid, ok := x.Key.(*ast.Ident); ok && x.Value == nil && x.Tok == token.DEFINE && kid.Name != "_" {
+			if kobj := info.Defs[kid]; kobj != nil {
+				rfill = e.fillSummary(st, x.Body, kobj, func(v *types.Var) bool { return e.assignedInNode(x.Body, v) }, tZero)
+			}
+		}
 		d.auto = func(s *State) *Term {
 			i := asTerm(s.store[idx])
-			return mkAnd(mkLe(tZero, i), mkLe(i, sv.Len))
+			inv := mkAnd(mkLe(tZero, i), mkLe(i, sv.Len))
+			if rfill != nil {
+				inv = mkAnd(inv, rfill(s, i))
+			}
+			return inv
 		}
 		// the hidden index is visible to invariants through the key variable's name (bound in body);
 		// expose it as "$idx" too
